@@ -45,6 +45,49 @@ def gen_env(rng):
     return env
 
 
+def ref_interp(tmpl, env, limit, ign=False, depth=0):
+    """Model-free reference of the property: replace each ${name} by the
+    recursively interpolated value, copy everything else, fail on a malformed
+    reference, an unknown variable or nesting that reaches the limit.
+    Returns bytes or None."""
+    depth += 1
+    if depth == limit:
+        return None
+    out = b""
+    while True:
+        p = tmpl.find(b"$")
+        if p < 0:
+            return out + tmpl
+        out += tmpl[:p]
+        if tmpl[p + 1:p + 2] != b"{":
+            return None
+        e = tmpl.find(b"}", p + 2)
+        if e < 0 or e == p + 2:
+            return None
+        name = tmpl[p + 2:e]
+        val = None
+        for k, v in env:
+            if k == name:
+                val = v
+                break
+        if val is None:
+            if not ign:
+                return None
+            out += tmpl[p:e + 1]
+        else:
+            r = ref_interp(val, env, limit, ign, depth)
+            if r is None:
+                return None
+            out += r
+        tmpl = tmpl[e + 1:]
+
+
+def source_limit():
+    import re
+    m = re.search(r"\+\+c->depth\s*==\s*(\d+)", open(os.path.join(core.REPO, "interpolate.c")).read())
+    return int(m.group(1)) if m else 5
+
+
 def classify(tmpl, env, out):
     if out.startswith("ok"):
         depth = 0
@@ -86,7 +129,16 @@ def run(ctx):
     model = ctx.model(["interp " + c for c in cases])
     kinds = {}
     distinct = set()
+    limit = source_limit()
     for c, i, m in zip(cases, impl, model):
+        w0 = c.split()
+        t0 = bytes.fromhex(w0[2]) if w0[2] != "-" else b""
+        env0 = [(bytes.fromhex(w0[j]) if w0[j] != "-" else b"", bytes.fromhex(w0[j + 1]) if w0[j + 1] != "-" else b"") for j in range(3, len(w0) - 1, 2)]
+        ref = ref_interp(t0, env0, limit, w0[1] == "1")
+        want = ("ok " + hexb(ref)) if ref is not None else "err"
+        if (i if i.startswith("ok") else "err") != want:
+            ctx.violation("interpolate_str does not substitute exactly / fail closed (reference evaluator of the property, limit %d)" % limit,
+                          dict(harness="harness/interp_harness.c", stdin_line=c, observed=i, expected=want))
         k = i.split()[0] if i.startswith("ok") else i.split()[1]
         kinds[k] = kinds.get(k, 0) + 1
         if i != m:
